@@ -567,7 +567,8 @@ def run(chk: common.Check):
               "creating function regenerated each run and validated bit for bit (IR, and Coq PrimFloat where transcendental-free) against the real "
               "functions, emitted events compared with logged appends; desolvation slices composed and compared with energy_volume/buried of real "
               "groups. Search: every determinant of every conformation (not AVR) of reference structures, Ser->Cys dyads, all ion types, "
-              "acid->base swaps, custom parameter files; distinct = (case, number of determinants)"),
+              "acid->base swaps, custom parameter files; distinct = (case, number of determinants)"
+              " Added in rounds 4-6: ion records with the PDB formal-charge field, ensembles (average: buried range, desolvation sign), a ligand base accepting a backbone N-H bond, coupled ring nitrogens + Ca under shared_determinants 1, an ion's charge vs the table entry of its residue name, another solvent dielectric."),
         assumptions=["bounds are checked with the configured maxima of the parameter file in use; groups discarded by the covalent-coupling penalty "
                      "are outside the 'reported protein side chains' of the equal-and-opposite clause",
                      "COO-ARG / COO-COO exceptions sum two hydrogen bonds (<= 2 x maximum) - covered by the scan, their loops are not modelled"],
